@@ -109,7 +109,7 @@ func (rn *runner) failDoc(text string, pre *poolPrelude, err error) {
 		c["earlier_document"] = pre
 	}
 	if se, ok := err.(*shapeErr); ok && se.probe != nil {
-		rn.sum.Fail("expression values differ (the node tree and the reference DOM of this document differ in shape)",
+		rn.sum.Fail("expression values differ (the node tree and the reference DOM of this document differ in shape or text)",
 			c, map[string]interface{}{"expr": se.probe.Expr, "idr_value": se.probe.IdrVal, "reference_value": se.probe.RefVal, "shape": se.msg})
 		return
 	}
@@ -297,6 +297,10 @@ func main() {
 	exprFeat := map[string]bool{}
 	for di := 0; di < ndocs; di++ {
 		text, groot, feat := genDoc(r)
+		if di%5 == 3 {
+			// in a declared single-byte encoding, with bytes 0x80..0xFF in text and attribute values
+			text, groot, feat = genEncodedDoc(r)
+		}
 		// four documents out of five are read after an earlier document of this process was
 		// streamed and released (node pool filled with its nodes)
 		var pre *poolPrelude
